@@ -1241,20 +1241,22 @@ theorem prepare_get_fwd {cfg : Wire.Cfg} {url n : Str} {p : Wire.Prepared}
 
 
 /-- everything a forwarded request (absolute-form target, no tunnel) of a fresh `ProxyManager` puts on
-the wire -/
-theorem route_forward_ok {idna : Str → Option Str} {extra : PoolKey.Ctx} {p : ProxyCfg} {u : Url.Url} {r : Route}
+the wire, given the headers `_set_proxy_headers` ends up with -/
+theorem route_forward_carried {idna : Str → Option Str} {extra : PoolKey.Ctx} {p : ProxyCfg} {u : Url.Url} {r : Route}
+    {carried : List (Str × Str)} {n' : Str}
     (hsc : u.scheme = some http ∨ u.scheme = some https)
     (hf : isForwarding (some p) u.scheme = true)
-    (h : routeWith idna (some p) extra u = .ok r) :
+    (hph : proxyHeaders u carried = [acceptHdr, (lit "Host", n')])
+    (h : routeWith idna (some p) extra u carried = .ok r) :
     ∃ n pl hst pv, u.netloc = some n ∧ n ≠ [] ∧ r.pool = 0 ∧
       (poolTarget (some p) u).1 = some hst ∧
       PoolKey.portOr (poolTarget (some p) u).2.1 (schemeOrO (poolTarget (some p) u).2.2) = .int pv ∧
       newPool idna (schemeOrO (poolTarget (some p) u).2.2) hst pv.toNat = .ok pl ∧
       r.dialHost = dialName (fwdAddr p pl).1 ∧ r.dialPort = (fwdAddr p pl).2 ∧
       r.connect = none ∧ r.target = u.render ∧
-      r.hostHeader = (if n != Gen.skipHeader then [n] else []) ∧
-      r.request = fwdRequestBytes u.render n ∧
-      r.kwHeaders = [acceptHdr, (lit "Host", n)] := by
+      r.hostHeader = (if n' != Gen.skipHeader then [n'] else []) ∧
+      r.request = fwdRequestBytes u.render n' ∧
+      r.kwHeaders = [acceptHdr, (lit "Host", n')] := by
   unfold routeWith route at h
   have hsc' : (u.scheme = some http || u.scheme = some https) = true := by
     rcases hsc with e | e <;> simp [e]
@@ -1271,12 +1273,68 @@ theorem route_forward_ok {idna : Str → Option Str} {extra : PoolKey.Ctx} {p : 
       simp only [Prod.mk.injEq] at hres
       obtain ⟨rfl, rfl, rfl, rfl, rfl, rfl, rfl, rfl⟩ := hres
       obtain ⟨hd1, hd2, -, -⟩ := dial_ok hdial
-      rw [proxyHeaders_fresh hn hne] at hprep h
+      rw [hph] at hprep h
       obtain ⟨hv1, hv2⟩ := prepare_get_fwd (prepareNV_of_prepare hprep)
       subst h
       exact ⟨n, pl, hst', pv, hn, hne, hid, hpt1, hpt2, hpt3, hd1, hd2, rfl, rfl, hv1, hv2, rfl⟩
 
+/-- a fresh request (`carried = []`): the headers are `Accept` and the URL's own netloc as `Host` -/
+theorem route_forward_ok {idna : Str → Option Str} {extra : PoolKey.Ctx} {p : ProxyCfg} {u : Url.Url} {r : Route}
+    (hsc : u.scheme = some http ∨ u.scheme = some https)
+    (hf : isForwarding (some p) u.scheme = true)
+    (h : routeWith idna (some p) extra u = .ok r) :
+    ∃ n pl hst pv, u.netloc = some n ∧ n ≠ [] ∧ r.pool = 0 ∧
+      (poolTarget (some p) u).1 = some hst ∧
+      PoolKey.portOr (poolTarget (some p) u).2.1 (schemeOrO (poolTarget (some p) u).2.2) = .int pv ∧
+      newPool idna (schemeOrO (poolTarget (some p) u).2.2) hst pv.toNat = .ok pl ∧
+      r.dialHost = dialName (fwdAddr p pl).1 ∧ r.dialPort = (fwdAddr p pl).2 ∧
+      r.connect = none ∧ r.target = u.render ∧
+      r.hostHeader = (if n != Gen.skipHeader then [n] else []) ∧
+      r.request = fwdRequestBytes u.render n ∧
+      r.kwHeaders = [acceptHdr, (lit "Host", n)] := by
+  -- the netloc is known to be present once the request was sent; get it from the general lemma's
+  -- own conclusion by first establishing the headers under a case split on `u.netloc`
+  cases hn : u.netloc with
+  | none =>
+    exfalso
+    unfold routeWith route at h
+    have hsc' : (u.scheme = some http || u.scheme = some https) = true := by
+      rcases hsc with e | e <;> simp [e]
+    simp only [Mgr.init, Option.isSome_some, Bool.true_and, hsc', Bool.not_true, Bool.false_eq_true, if_false] at h
+    split at h
+    · simp at h
+    · split at h
+      · simp at h
+      · rename_i hsend
+        obtain ⟨n, _, _, _, hn', _⟩ := send_forward_ok hf hsend
+        rw [hn] at hn'; simp at hn'
+  | some n =>
+    by_cases hne : n = []
+    · exfalso
+      unfold routeWith route at h
+      have hsc' : (u.scheme = some http || u.scheme = some https) = true := by
+        rcases hsc with e | e <;> simp [e]
+      simp only [Mgr.init, Option.isSome_some, Bool.true_and, hsc', Bool.not_true, Bool.false_eq_true, if_false] at h
+      split at h
+      · simp at h
+      · split at h
+        · simp at h
+        · rename_i hsend
+          obtain ⟨n2, _, _, _, hn', hne', _⟩ := send_forward_ok hf hsend
+          rw [hn] at hn'; simp only [Option.some.injEq] at hn'; subst hn'; exact hne' hne
+    · obtain ⟨n2, pl, hst, pv, hn2, h1, h2, h3, h4, h5, h6, h7, h8, h9, h10, h11, h12⟩ :=
+        route_forward_carried hsc hf (proxyHeaders_fresh hn hne) h
+      rw [hn] at hn2; simp only [Option.some.injEq] at hn2; subst hn2
+      exact ⟨n, pl, hst, pv, rfl, h1, h2, h3, h4, h5, h6, h7, h8, h9, h10, h11, h12⟩
 
+/-- `_set_proxy_headers` when the caller's headers are a previous hop's computed `Accept` / `Host`: the
+carried `Host` wins -/
+theorem proxyHeaders_carried {u : Url.Url} {n n₀ : Str} (hn : u.netloc = some n) (hne : n ≠ []) :
+    proxyHeaders u [acceptHdr, (lit "Host", n₀)] = [acceptHdr, (lit "Host", n₀)] := by
+  have : n.isEmpty = false := by simpa using hne
+  have e2 : lit "Host" ≠ lit "Accept" := by decide
+  have e3 : lit "Accept" ≠ lit "Host" := by decide
+  simp [proxyHeaders, dictUpdate, dictSet, hn, this, acceptHdr, e2, e3]
 
 theorem lookup_append_new {α β : Type} [BEq α] [LawfulBEq α] (k : α) (v : β) (l : List (α × β))
     (h : List.lookup k l = none) : List.lookup k (l ++ [(k, v)]) = some v := by
